@@ -359,7 +359,12 @@ for schema, why in (("unpublished", "the new SKR signs with a key that was never
 go(dict(base1, schema="unpublished", why="publish safety", via_main=True, out_existing=OLD), "safety-main", "post-sign-failure")
 # ---- E. token faults at every position of the operation sequence
 KINDS = {"open": ["error"], "login": ["error"], "find": ["error", "missing", "duplicate"], "attr": ["error"], "sign": ["error", "corrupt", "truncate", "wrong-key", "wrong-hash"]}
-for b, label in ((base1, "one-signer"), (base2, "two-signers")):
+FAULT_BASES = [(base1, "one-signer"), (base2, "two-signers")]
+if THOROUGH:
+    PREV9 = prev_skr(9, SCHEMA2, ZP)
+    KSR9 = successor(PREV9, ZP, n=9)
+    FAULT_BASES.append(({"ksr": KSR9, "prev": PREV9, "schema": "two", "force": True, "n": 9, "n_prev": 9}, "nine-bundles-two-signers"))
+for b, label in FAULT_BASES:
     ref = run_ceremony(dict(b), "probe")
     ops = [(e[1], e[0]) for e in ref["ops"] if len(e) == 3 and isinstance(e[1], int)]
     positions = []
